@@ -13,7 +13,7 @@ import time
 from harness import core
 
 PROP = 'C02'
-UNITS = ['Create', 'Transport']
+UNITS = ['Create', 'Transport', 'Framing']      # Framing: the remote kind's results travel through send_msg/recv_msg/_recv_exact
 PROOFS = ['theories/Equiv/Pipe.v', 'theories/Equiv/TransportProofs.v']
 HEADER_T = 'From PW Require Import Equiv.Transport Equiv.TransportRun.\n'
 
@@ -183,6 +183,14 @@ def summarize(o):
     return o
 
 
+def tagged_block(i, n, at=None):
+    """a large result that says whose it is, delivered at a given instant"""
+    if at is not None:
+        while time.time() < at:
+            time.sleep(0.005)
+    return bytes([65 + i]) * n
+
+
 def main_script_cases(res, tier):
     """values and wrapped callables that live in the MAIN SCRIPT, against a stand-alone server (harness/c02_main_driver.py)"""
     import json
@@ -299,6 +307,21 @@ def main(tier, seed, replay=None):
                     res.count('not-run'); res.case(('norun', kname, label, how), nontrivial=True)
                     if o != (False, True, True, False, None, None) or type(w) is not cls:
                         res.violation(dict(kind=kname, how=how, norun=label), f'a worker that is not run must be dead at once with has_error False, result None: observed {o}')
+        # several workers of one kind delivering large results at the same time: each one gets ITS result
+        for kname, (cls, wt, extra) in kinds.items():
+            at = time.time() + (1.0 if kname == 'thread' else 3.0)       # all of them deliver at the same instant
+            ws = [cls(target=tagged_block, args=(i, 16_000_000, at), **extra) for i in range(3)]
+            for w in ws:
+                w.wait(60)
+            res.count('concurrent-large:' + kname); res.case(('concurrent-large', kname), nontrivial=True)
+            for i, w in enumerate(ws):
+                want = tagged_block(i, 16_000_000)
+                got = w.result
+                if w.has_error is not False or got != want:
+                    summary = (type(got).__name__, len(got) if hasattr(got, '__len__') else None, {b: got.count(bytes([b])) for b in set(got[:1] + got[-1:])} if isinstance(got, bytes) else None)
+                    res.violation(dict(kind=kname, concurrent_large_results=3, worker=i),
+                                  f'worker {i} of three {kname} workers returning 16 MB blocks at the same instant: has_error={w.has_error}, result {summary} differs from the direct call')
+                    break
         # the factory for persistent classes
         for wt, name in ((WorkerType.THREAD, 'PersistentThreadWorker'), (WorkerType.PROCESS, 'PersistentProcessWorker'), (WorkerType.REMOTE, 'PersistentRemoteWorker')):
             w = PersistentWorker.create(wt, target=identity, run=False, **({'host': host} if wt is WorkerType.REMOTE else {}))
